@@ -1,10 +1,10 @@
 package rules
 
 import (
-	"sort"
 	"fmt"
 	"go/types"
 	"os"
+	"sort"
 	"strings"
 
 	"golang.org/x/tools/go/ssa"
@@ -60,12 +60,19 @@ func roleFns(w *core.World) map[*ssa.Function]string {
 			case "datastore/types.NewTransactionGuard":
 				role, idx = "<guard cleanup>", 0
 			}
-			if role == "" || idx >= len(c.Common().Args) {
+			if role == "" {
 				continue
 			}
-			tg, _ := w.FuncTargets(c.Common().Args[idx])
-			for _, t := range tg {
-				out[t] = role
+			_ = idx
+			// the function-typed argument, whatever its position
+			for _, a := range c.Common().Args {
+				if _, isFn := a.Type().Underlying().(*types.Signature); !isFn {
+					continue
+				}
+				tg, _ := w.FuncTargets(a)
+				for _, t := range tg {
+					out[t] = role
+				}
 			}
 		}
 	}
@@ -318,7 +325,9 @@ func c07(w *core.World, r *core.Report) {
 			continue
 		}
 		for i, m := range core.CallsTo(f, kModify) {
-			r.Check(core.GuardedByErrNil(m, aps[0].(*ssa.Call)), "APPLY-BEFORE-PERSIST", core.Site(f, "Modify#%d after apply ok", i), w.InstrPos(m), "store write must be reachable only when the device accepted the change")
+			okm := false
+			core.WithHost(f, func() { okm = core.GuardedByErrNil(m, aps[0].(*ssa.Call)) })
+			r.Check(okm, "APPLY-BEFORE-PERSIST", core.Site(f, "Modify#%d after apply ok", i), w.InstrPos(m), "store write must be reachable only when the device accepted the change")
 		}
 	}
 	{
